@@ -32,14 +32,12 @@ func c16(c *q.Ctx) {
 	}
 	tms := c.Fn("bcs/consensus/tdpos::(*tdposSchedule).minerScheduling")
 	if tms != nil {
-		n := 0
-		for _, r := range q.Returns(tms) {
-			if len(r.Results) == 3 && q.Canon(r.Results[2]) == "-1" {
-				n++
-			}
-		}
-		c.Check(n == 2, "K5", "bcs/consensus/tdpos::(*tdposSchedule).minerScheduling", "both gap branches (before the term's first slot, before a producer's first slot) answer blockPos = -1", "-", "a timestamp inside a hand-over gap belongs to nobody")
-		c.Sites += n
+		// both hand-over gaps (before the term's first slot, before a producer's first slot) are decided by comparing the
+		// slot's begin with the block's own time, and answer blockPos = -1: a timestamp inside a gap belongs to nobody
+		// (a test on the truncated quotient (T-begin)/period lets the instants just before the slot through)
+		gap := q.Cond{Canon: "(* < (p1 / 1000000))", Sense: false}
+		c.CondCount(tms, gap.Canon, 2, "the term gap and the producer gap are each decided on `begin >= T`")
+		c.EdgeReturns(tms, gap, 2, "-1", "inside a gap nobody is entitled")
 	}
 	// ---- XPoA
 	xp := c.Fn("bcs/consensus/xpoa::(*xpoaConsensus).CheckMinerMatch")
